@@ -223,6 +223,10 @@ def trace_real(n, val, loops, out):
     elif isinstance(n, A.Block):
         for c in n.children:
             trace_real(c, val, loops, out)
+    elif isinstance(n, (A.IfThenElse, A.IfThen)) and loops:
+        # a statement's guard goes AROUND its loops: it is decided once, before any loop bound is evaluated, and a loop counter
+        # cannot capture a name in it
+        raise Unexpected("guard %s is evaluated inside the loop over %s" % (n.condition, loops[-1][0]))
     elif isinstance(n, A.IfThenElse):
         trace_real(n.then if ev_real(n.condition, val) else n.else_, val, loops, out)
     elif isinstance(n, A.IfThen):
@@ -601,6 +605,15 @@ def bounded(payload):
                     run({"stmts": st}, "nested_negations")
                     run({"stmts": [dict(st[1], id="s0", deps=[]), dict(st[0], id="s1", deps=["s0"] if dep else [])]},
                         "nested_negations")
+    # a guard that mentions a name which is also one of the statement's own loop identifiers: the guard is decided once, before
+    # the loops (and before their bounds are evaluated), like every other guard
+    for g in (["<", "k", 2], ["!", ["<", "k", 0]], ["<", "i", 1]):
+        for loops in ([["k", 0, "n"]], [["i", 0, 3], ["k", "m", "n"]], [["k", 0, 2], ["i", 0, "k"]]):
+            for other in (None, "c1"):
+                st = [{"id": "s0", "kind": "assign", "deps": [], "guard": other},
+                      {"id": "s1", "kind": "assign", "deps": ["s0"], "guard": g, "loops": loops},
+                      {"id": "s2", "kind": "assign", "deps": ["s1"], "guard": g}]
+                run({"stmts": st}, "guard_names_a_loop_identifier")
     for i in range(n_random):
         inp = random_input(rng, rand_max_n, allow_false=(i % 4 == 3))
         run(inp, "random")
